@@ -245,10 +245,15 @@ def gen_aspath(r, two):
         for _ in range(2 + r.below(3)):
             segs.append("(segr 2 255 %d %d)" % (r.pick([1, 65400, 70000]), r.pick([0, 1])))
     elif style == "confed":
-        segs.append("(3 %s)" % " ".join(str(asn(False)) for _ in range(1 + r.below(3))))
+        # leading confederation segments (RFC 5065); rarely what RFC 6793 cannot carry to a 2-byte peer:
+        # a wide AS inside the confederation segment, a confederation segment behind a sequence
+        wide_member = r.chance(1, 8)
+        segs.append("(3 %s)" % " ".join(str(asn(wide_member)) for _ in range(1 + r.below(3))))
         if r.chance(1, 3):
             segs.append("(4 %d)" % asn(False))
         segs.append("(2 %s)" % " ".join(str(asn(r.chance(1, 4))) for _ in range(1 + r.below(3))))
+        if r.chance(1, 8):
+            segs.append("(3 %d)" % asn(False))
     return "(asp %s)" % " ".join(segs)
 
 
